@@ -640,3 +640,29 @@ func H_Spot_Execute_TwoOrders() {
 		vrf.Cover("none-executed")
 	}
 }
+
+// One execution request naming the same spot order twice (and the same perpetual order twice): the order is executed
+// at most once - the second entry finds it gone (the request fails and is rolled back) or does nothing.
+//
+//vrf:cover done rolled-back
+//vrf:bound 1 pending limit order of any type named twice in one MsgExecuteOrders by a third party; market prices arbitrary, swap fails or succeeds
+func H_Spot_Execute_SameOrderTwice() {
+	s := setup()
+	t := pickType()
+	o, wal := s.pendingSpot(t)
+	esc := o.GetOrderAddress()
+	usdc0 := s.w.BalOf(owner, usdc)
+	_, err := s.srv.ExecuteOrders(s.ctx, &tstypes.MsgExecuteOrders{Creator: other.String(), SpotOrderIds: []uint64{o.OrderId, o.OrderId}})
+	if err != nil {
+		vrf.Cover("rolled-back")
+		return // failed transaction: rolled back by baseapp
+	}
+	vrf.Cover("done")
+	vrf.Assert(s.amm.swaps <= 1, "C20 execute(repeated): an order named twice in one request is executed at most once")
+	if s.amm.swaps == 0 {
+		vrf.Assert(s.total(owner, esc, atom).Equal(wal.Add(o.OrderAmount.Amount)), "C20 execute(repeated): owner's wallet + escrow conserved when nothing is executed")
+	} else {
+		vrf.Assert(s.total(owner, esc, atom).Equal(wal), "C20 execute(repeated): exactly the order amount is spent, once")
+		vrf.Assert(s.w.BalOf(owner, usdc).Equal(usdc0.Add(s.amm.out)), "C20 execute(repeated): the output goes to the owner, once")
+	}
+}
